@@ -242,3 +242,125 @@ def symbolic_apply(interp: Interp, f, sym: str = "x") -> str:
             raise Unsupported(f"aggregator {f!r} could not be applied to a symbol: {e}")
         return r.key() if isinstance(r, Term) else f"?{r!r}"
     raise Unsupported(f"aggregator {f!r} is not understood")
+
+
+# ------------------------------------------------------------------------------------------------ abstract booleans / exploration
+class Oracle:
+    """Decides abstract booleans; `explore` re-runs a function over all decision sequences (depth-first, each tag decided once per run)."""
+
+    def __init__(self):
+        self.script = []
+        self.trace = []
+        self.memo = {}
+
+    def reset(self, script):
+        self.script, self.trace, self.memo = list(script), [], {}
+
+    def choose(self, tag: str) -> bool:
+        if tag in self.memo:
+            return self.memo[tag]
+        i = len(self.trace)
+        v = self.script[i] if i < len(self.script) else False
+        self.trace.append((tag, v))
+        self.memo[tag] = v
+        return v
+
+
+class AbsBool(Stub):
+    def __init__(self, tag: str, oracle: Oracle):
+        self.tag, self.oracle = tag, oracle
+
+    def __bool__(self):
+        return self.oracle.choose(self.tag)
+
+
+def explore(run, oracle: Oracle, max_runs: int = 256):
+    """[(decisions, result)] for every feasible decision sequence of `run()` (which consults `oracle`)."""
+    out = []
+    todo = [[]]
+    while todo:
+        if len(out) >= max_runs:
+            raise Unsupported("too many abstract decision sequences")
+        sc = todo.pop()
+        oracle.reset(sc)
+        res = run()
+        tr = list(oracle.trace)
+        out.append((tr, res))
+        for i in range(len(sc), len(tr)):
+            if tr[i][1] is False:
+                todo.append([t[1] for t in tr[:i]] + [True])
+    return out
+
+
+class Opaque(Stub):
+    """A value whose content does not matter to the analysis (labels, settings-derived numbers): every attribute, call, item and
+    arithmetic result is again opaque.  Use only for values that cannot influence the property being decided."""
+
+    def __init__(self, what: str = "opaque"):
+        self._what = what
+
+    def __getattr__(self, name):
+        if name.startswith("__") or name in ("_abs_isinstance", "_abs_type", "_settable"):
+            raise AttributeError(name)
+        return Opaque(f"{self._what}.{name}")
+
+    def _abs_call(self, *a, **k):
+        return Opaque(f"{self._what}()")
+
+    def __getitem__(self, k):
+        return Opaque(f"{self._what}[]")
+
+    def _bin(self, o):
+        return Opaque(f"{self._what}~")
+
+    __add__ = __radd__ = __sub__ = __rsub__ = __mul__ = __rmul__ = __truediv__ = __rtruediv__ = _bin
+
+    def __repr__(self):
+        return f"<{self._what}>"
+
+
+class BoundRepoMethods:
+    """Mixin for abstract instances: attributes not set explicitly are looked up among the methods of the repository class (through
+    its MRO) and come back as interpreted bound methods."""
+
+    def _bind_repo(self, chk, cls_info, interp, stand_ins, cache=None):
+        object.__setattr__(self, "_repo_ctx", (chk, cls_info, interp, stand_ins, cache if cache is not None else {}))
+
+    def __getattr__(self, name):
+        if name.startswith("__") or name == "_repo_ctx":
+            raise AttributeError(name)
+        ctx = self.__dict__.get("_repo_ctx")
+        if ctx is None:
+            raise AttributeError(name)
+        chk, cls_info, interp, stand_ins, cache = ctx
+        fi = chk.res.find_method(cls_info, name)
+        if fi is None:
+            # a class-level literal attribute of the repository class, else an instance attribute the rule did not set: its truth
+            # value is explored both ways (the analysed code may branch on it), anything else about it is not modelled
+            for k in chk.res.mro(cls_info):
+                if name in k.attrs and k.attrs[name][1] is not None:
+                    try:
+                        return ast.literal_eval(k.attrs[name][1])
+                    except (ValueError, TypeError, SyntaxError):
+                        break
+            orc = self.__dict__.get("_oracle")
+            if orc is not None:
+                return AbsBool(f"self.{name}", orc)
+            raise AttributeError(name)
+        env = cache.get(fi.module.name) or ModuleEnv(chk.repo, fi.module, interp, stand_ins, cache)
+        fn = Function(fi.node, env, interp)
+        me = self
+        decos = fi.decorators
+        if "staticmethod" in decos:
+            return _Callable(lambda *a, **k: fn(*a, **k))
+        if "property" in decos:
+            return fn(me)
+        return _Callable(lambda *a, **k: fn(me, *a, **k))
+
+
+class _Callable(Stub):
+    def __init__(self, f):
+        self.f = f
+
+    def _abs_call(self, *a, **k):
+        return self.f(*a, **k)
